@@ -297,7 +297,7 @@ impl Reporter {
             println!("VIOLATION property={} replay={}", id, path.display());
             println!("  signature: {}", sig);
             let d = serde_json::to_string(&v.detail).unwrap_or_default();
-            println!("  witness: {}", if d.len() > 600 { &d[..600] } else { &d });
+            println!("  witness: {}", if d.len() > 600 { let mut k = 600; while !d.is_char_boundary(k) { k -= 1; } &d[..k] } else { &d });
             violation_summaries.push(json!({"signature": sig, "count": v.count}));
         }
         let distinct_n = g.distinct.len() as u64 + g.distinct_by_construction;
